@@ -24,7 +24,12 @@ Step(e) ==
     LET \* a write through a handle whose cached collection may be stale is unconstrained; if it succeeded it is a write
         a == [force |-> e.act.kind \in {"Write", "PutDDoc"} /\ e.res = "ok"] @@ e.act
         want == Expect(M, a)
-        N == Apply(M, a)
+        N0 == Apply(M, a)
+        \* a handle whose cached collection object may be stale may or may not re-create collection c1: what it did is
+        \* taken from what the acting handle then lists
+        N == IF M.hs[a.h].st = "open" /\ M.hs[a.h].stale /\ a.kind \in {"StartFeed", "Write", "PutDDoc"} /\ e.hs[a.h].cls = "ok"
+             THEN [N0 EXCEPT !.store[M.hs[a.h].n][M.hs[a.h].u].c1 = e.hs[a.h].has1]
+             ELSE N0
         recv == Receivers(M, a)
         \* result of the call itself; a panic or a hang is never acceptable (C20)
         fRes == IF e.res \in {"panic", "hang"}
